@@ -121,7 +121,7 @@ def p1(ctx: Ctx):
                         idx[dc],
                         "DIM statements created for undeclared arrays never receive the requested string size (an implicit string array keeps BASIC09's 32 bytes)",
                         ins.line,
-                        ["C10"],
+                        ["C10", "C03"],
                     )
     rc = [c for c in roles["ref_collector"] if c in idx]
     ctx.need(rc, "ref_collector", "the line-reference collector is not run by convert()")
@@ -555,6 +555,16 @@ def p4(ctx: Ctx):
             raises = [x for x in n.body if isinstance(x, ast.Raise)]
             if bound is not None and raises:
                 rc = unparse(raises[0].exc)
+                parts = n.test.values if isinstance(n.test, ast.BoolOp) and isinstance(n.test.op, ast.And) else [n.test]
+                extra = [unparse(pt) for pt in parts if not (isinstance(pt, ast.Compare) and len(pt.ops) == 1 and (isinstance(pt.ops[0], (ast.Gt, ast.GtE)) or (isinstance(pt.ops[0], ast.IsNot) and isinstance(pt.comparators[0], ast.Constant) and pt.comparators[0].value is None)))]
+                ctx.ob(
+                    "refuse:line-number-bound:every-line",
+                    not extra,
+                    "" if not extra else f"the line-number bound is only enforced when `{' and '.join(extra)}`: other lines above the bound are converted (and can collide with the dispatcher label)",
+                    file=VISITORS_REL,
+                    line=n.lineno,
+                    witness="" if not extra else "32700 END",
+                )
                 okb = bound == 32699 and rc.startswith("LineNumberTooLargeException")
                 ctx.ob("refuse:line-number-bound", okb, "" if okb else f"line numbers above {bound} raise `{rc}`; documented bound is 32699 with LineNumberTooLargeException", file=VISITORS_REL, line=n.lineno, facts={"bound": bound})
     ctx.need(bound is not None, "LineNumberCheckerVisitor", "bound comparison not found")
@@ -642,6 +652,18 @@ def p6(ctx: Ctx):
     err_ln = min((n.lineno for n in gotos if n.args[0].id == "err_line"), default=None)
     if brk_ln and err_ln:
         ctx.ob("brk-before-err", brk_ln < err_ln, "" if brk_ln < err_ln else "the unconditional GOTO err_line precedes the break test", file=m.rel, line=g.lineno)
+    for n in ast.walk(g):
+        if isinstance(n, (ast.If, ast.IfExp)) and names_loaded(n.test) & {"brk_line", "err_line"}:
+            parts = n.test.values if isinstance(n.test, ast.BoolOp) else [n.test]
+            okn = all(isinstance(pt, ast.Compare) and len(pt.ops) == 1 and isinstance(pt.ops[0], (ast.IsNot, ast.Is)) and isinstance(pt.comparators[0], ast.Constant) and pt.comparators[0].value is None for pt in parts)
+            ctx.ob(
+                f"target-present-test:{unparse(n.test)[:40]}",
+                okn,
+                "" if okn else f"`{unparse(n.test)}` tests a handler target by truthiness: line 0 is a legal target and counts as `no handler`, so ON BRK GOTO 0 / ON ERR GOTO 0 get no dispatcher branch",
+                file=m.rel,
+                line=n.lineno,
+                witness="" if okn else "10 ON BRK GOTO 0",
+            )
     # convert() hands the collected targets over under the right names
     P = pipeline(ctx)
     gen = next((n for n in ast.walk(P.fn) if isinstance(n, ast.Call) and call_name(n) == "generate"), None)
